@@ -84,6 +84,18 @@ def classify_reject(lines, idx):
             ancs = {d.rsplit(".", k)[0] for k in range(1, d.count(".") + 1)}
             if any(y["ev"] == "Enter" and y["a"]["dn"] in ancs and y["a"].get("inst", 1) > 1 for y in lines[i:idx + 1]):
                 return "reject/done-notice-vs-ancestor-restart"
+    # one restart scan re-initialised some but not all of the subtrees that were restartable in the previous snapshot
+    if idx > 0 and not killed:
+        ps, cs = lines[idx - 1].get("s") or {}, ln.get("s") or {}
+
+        def restartable(d):
+            par = d.rsplit(".", 1)[0] if "." in d else None
+            return ps[d]["st"] in ("DEAD", "CANCELED") and (par is None or (ps.get(par) or {}).get("live")) and \
+                not any(k.startswith(d + ".") for k in ps)
+        cands = [d for d in ps if restartable(d)]
+        again = [d for d in cands if (cs.get(d) or {}).get("st") == "NEW"]
+        if len(cands) >= 2 and 0 < len(again) < len(cands):
+            return "reject/%s/partial-restart-scan" % ln["ev"]
     dn = ln.get("a", {}).get("dn", "")
     return "reject/%s/depth%d%s%s" % (ln["ev"], _depth(dn), "/" + ln["a"]["kind"] if "kind" in ln.get("a", {}) else "", "/after-kill" if killed else "")
 
